@@ -344,7 +344,7 @@ func checkKahnSorts(c *fw.Ctx) {
 				sorts = append(sorts, call.(ssa.Instruction))
 				// comparator is one of the total comparators
 				cmp := fw.Sig(call.Common().Args[len(call.Common().Args)-1])
-				c.Check(strings.Contains(cmp, "sortStateResV2Conflicted"), rule, spec+": work-lists are sorted with the total comparator", c.P.Pos(call.Pos()), cmp, "comparator is "+cmp)
+				c.Expect(strings.Contains(cmp, "sortStateResV2Conflicted"), rule, spec+": work-lists are sorted with the total comparator", c.P.Pos(call.Pos()), cmp, "comparator is "+cmp)
 			}
 		}
 		// appends into a heap inside a map range count as pushes too
@@ -421,7 +421,7 @@ func checkKahnSorts(c *fw.Ctx) {
 			if strings.HasPrefix(fw.CalleeName(call), "slices.SortStableFunc") || strings.HasPrefix(fw.CalleeName(call), "slices.SortFunc") {
 				n++
 				cmp := fw.Sig(call.Common().Args[len(call.Common().Args)-1])
-				c.Check(strings.Contains(cmp, "sortStateResV2ConflictedOtherHeap"), rule, "mainline ordering sorts with the total mainline comparator", c.P.Pos(call.Pos()), cmp, "comparator is "+cmp)
+				c.Expect(strings.Contains(cmp, "sortStateResV2ConflictedOtherHeap"), rule, "mainline ordering sorts with the total mainline comparator", c.P.Pos(call.Pos()), cmp, "comparator is "+cmp)
 			}
 		}
 		c.Min(rule+" mainlineOrdering sort", n, 1)
@@ -500,7 +500,7 @@ func checkV1Deferral(c *fw.Ctx) {
 	if fn != nil {
 		res := fw.CallsTo(fn, false, fw.NameIs("(*gmsl.stateResolver).resolveAuthBlock"))
 		adds := fw.CallsTo(fn, false, fw.NameIs("(*gmsl.stateResolver).addAuthEvent"))
-		c.Check(len(res) == 1 && len(adds) >= 1, rule, "resolveAndAddAuthBlocks resolves blocks and registers results", c.P.Pos(fn.Pos()), "", fmt.Sprintf("%d resolveAuthBlock, %d addAuthEvent sites", len(res), len(adds)))
+		c.Expect(len(res) == 1 && len(adds) >= 1, rule, "resolveAndAddAuthBlocks resolves blocks and registers results", c.P.Pos(fn.Pos()), "", fmt.Sprintf("%d resolveAuthBlock, %d addAuthEvent sites", len(res), len(adds)))
 		if len(res) == 1 {
 			_, body := fw.LoopOf(res[0].Block())
 			for _, a := range adds {
